@@ -34,3 +34,10 @@ namespace Sema.Go
 /-- `%d` of an `int` / `int64` -/
 def fmtInt (i : Int) : String := toString i
 end Sema.Go
+
+namespace Sema.Go
+/-- `cmp.Compare(a, b)` on `uint64`: -1 if a < b, +1 if a > b, 0 otherwise -/
+def cmpU64 (a b : BitVec 64) : Int := if a < b then -1 else if b < a then 1 else 0
+/-- `cmp.Compare(a, b)` on `int` / `int64` -/
+def cmpInt (a b : Int) : Int := if a < b then -1 else if b < a then 1 else 0
+end Sema.Go
